@@ -68,7 +68,7 @@ func sceneCall() {
 	ob, ok := k.GetRequestContext(ctx, otherID)
 	chk("C09 C16", vf.All(ok, ob.State == types.PAUSED, ob.BatchCounter == 1), "other-context-untouched")
 	chk("C15", vf.Implies(err == nil, defined), "call-needs-definition")
-	chk("C08", vf.Implies(err == nil, vf.And(timeout >= 1, timeout <= k.MaxRequestTimeout(ctx))), "timeout-within-bounds")
+	chk("C08", vf.Implies(err == nil, vf.And(timeout >= 1, timeout <= vf.Params(ctx).MaxRequestTimeout)), "timeout-within-bounds")
 	if err != nil {
 		chk("C11", vf.And(!k.HasNewRequestBatch(ctx, id), !k.HasRequestBatchExpiration(ctx, id)), "rejected-call-queues-nothing")
 		return
